@@ -25,6 +25,7 @@ import pypose as pp  # noqa: F401
 from pypose.optim import solver as pps
 from pypose.sparse import ops as spops
 
+SHARED_CG = {}
 PID = "C10"
 LEVEL = "exploration"
 SHARDS = {"quick": 4, "thorough": 16}
@@ -586,6 +587,15 @@ def drive_cg(ck, rng, dn, thorough):
                                     "x0_values": None if x0 is None or n > 12 else x0_before.double().reshape(-1).tolist()}
 
                         solver = pps.CG() if tol == 1e-5 else pps.CG(tol=tol)
+                        if rng.random() < 0.5:
+                            # history (added by the framework owner): one solver object reused across systems of different
+                            # sizes, first used on a tiny system - nothing of an earlier solve may influence a later one
+                            key_ = (tol, dn)
+                            if key_ not in SHARED_CG:
+                                SHARED_CG[key_] = solver
+                                SHARED_CG[key_](torch.tensor([[2.0, 0.5], [0.5, 1.0]], dtype=DT[dn]), torch.ones(2, 1, dtype=DT[dn]))
+                            solver = SHARED_CG[key_]
+                            ck.mark("cg/reused-solver-object")
                         okc, X = ck.call("cg_residual", regime, entry, lambda: solver(Aop, barg, x0, M), witness=wit)
                         ck.mark(f"cg/{dn}/{layout[:3]}")
                         ck.mark(f"cg/M:{mkind}")
@@ -843,6 +853,7 @@ def run(ck):
             ck.require(f"chol/notpd/{dn}/{c}")
         for lay in ("den", "csr", "coo", "bsr"):
             ck.require(f"cg/{dn}/{lay}")
+    ck.require("cg/reused-solver-object")
     ck.note("sparse_pairs_that_raised", sorted(RAISED))
     ck.note("sparse_pairs_that_returned", sorted(RETURNED))
     for sname in ("PINV", "LSTSQ"):
